@@ -422,7 +422,7 @@ def recursion_model(check, scratch):
     d = scratch.sub('recursion')
     cfg = tlc.write_cfg(os.path.join(d, 'Recursion.cfg'), spec='Spec', constants=dict(REC_CONST, Export=True),
                         invariants=['DepthRespected', 'WorkBounded'], properties=['Terminates'], constraints=['ExportLine'])
-    r = tlc.run_tlc('Recursion', cfg, scratch, workers=1, timeout=1800, xmx='6g')
+    r = tlc.run_tlc('Recursion', cfg, scratch, workers=1, timeout=1800, xmx='6g', coverage=True)
     check.add_model_run('Recursion(depth 32, budget 256, key func+args)', r)
     if r.invariants_violated or not r.ok:
         check.error('Recursion: %s\n%s' % (r.invariants_violated, r.out[-1500:]))
@@ -519,7 +519,7 @@ def run(check, tier, seed, scratch):
     quick = tier == 'quick'
     d = scratch.sub('fallback')
     cfg = tlc.write_cfg(os.path.join(d, 'Fallback.cfg'), spec='Spec', constants=dict(SourceFailuresMapped=True), invariants=['C07_Total'], properties=['Terminates'])
-    r = tlc.run_tlc('Fallback', cfg, scratch, workers=2, timeout=600)
+    r = tlc.run_tlc('Fallback', cfg, scratch, workers=2, timeout=600, coverage=True)
     check.add_model_run('Fallback(chain with the code\'s catch rules)', r)
     if r.invariants_violated or not r.ok:
         check.error('Fallback: %s\n%s' % (r.invariants_violated, r.out[-1500:]))
